@@ -147,7 +147,7 @@ def run(c):
                 t[pth[-1]] = nv
                 nl.append("c04 fix " + w(json.dumps(m)))
                 nn.append((bn, "/".join(map(str, pth)), nv))
-    for (bn, pth, nv), r in zip(nn, run_go(nl)):
+    for (bn, pth, nv), r in zip(nn, run_go(nl, shards=16)):
         v = parse_wire(r)
         c.count("noisy-leaf-fixpoint", 1, (bn, pth, nv))
         if v and isinstance(v[0], list) and v[0] and v[0][0] == b"diff":
@@ -197,7 +197,7 @@ def run(c):
             del t[cpath[-1]]
             dl.append("c04 fix " + w(json.dumps(b2)))
             dn.append((name, "/".join(cpath)))
-    for (name, cpath), r in zip(dn, run_go(dl)):
+    for (name, cpath), r in zip(dn, run_go(dl, shards=16)):
         v = parse_wire(r)
         c.count("defaults-fixpoint", 1, (name, cpath))
         if v and isinstance(v[0], list) and v[0] and v[0][0] == b"diff" and shown < 9:
